@@ -17,12 +17,15 @@ import (
 	authtypes "github.com/cosmos/cosmos-sdk/x/auth/types"
 	stakingtypes "github.com/cosmos/cosmos-sdk/x/staking/types"
 	gethcommon "github.com/ethereum/go-ethereum/common"
+	xchain "github.com/palomachain/paloma/v2/internal/x-chain"
 	consensuskeeper "github.com/palomachain/paloma/v2/x/consensus/keeper"
 	consensustypes "github.com/palomachain/paloma/v2/x/consensus/types"
 	evmkeeper "github.com/palomachain/paloma/v2/x/evm/keeper"
 	evmtypes "github.com/palomachain/paloma/v2/x/evm/types"
 	metrixkeeper "github.com/palomachain/paloma/v2/x/metrix/keeper"
 	metrixtypes "github.com/palomachain/paloma/v2/x/metrix/types"
+	schedulerkeeper "github.com/palomachain/paloma/v2/x/scheduler/keeper"
+	schedulertypes "github.com/palomachain/paloma/v2/x/scheduler/types"
 	treasurykeeper "github.com/palomachain/paloma/v2/x/treasury/keeper"
 	treasurytypes "github.com/palomachain/paloma/v2/x/treasury/types"
 	valsetkeeper "github.com/palomachain/paloma/v2/x/valset/keeper"
@@ -68,6 +71,7 @@ type Env struct {
 	Treasury  *treasurykeeper.Keeper
 	Consensus *consensuskeeper.Keeper
 	Evm       *evmkeeper.Keeper
+	Scheduler *schedulerkeeper.Keeper
 }
 
 func register(r codectypes.InterfaceRegistry) {
@@ -75,6 +79,7 @@ func register(r codectypes.InterfaceRegistry) {
 	evmtypes.RegisterInterfaces(r)
 	valsettypes.RegisterInterfaces(r)
 	metrixtypes.RegisterInterfaces(r)
+	schedulertypes.RegisterInterfaces(r)
 	treasurytypes.RegisterInterfaces(r)
 	authtypes.RegisterInterfaces(r)
 }
@@ -103,7 +108,8 @@ func New(height int64) *Env {
 	evm.Skyway = fakeSkyway{}
 	cons.LateInject(evm)
 	reg.Add(evm)
-	return &Env{Cdc: cdc, Ctx: ctx, MS: ms, Staking: st, Slashing: sl, Bank: bank, Accounts: accs, Valset: valset, Metrix: &metrix, Treasury: treasury, Consensus: cons, Evm: evm}
+	sched := schedulerkeeper.NewKeeper(cdc, runtime.NewKVStoreService(storetypes.NewKVStoreKey(schedulertypes.StoreKey)), accs, evm, []xchain.Bridge{evm})
+	return &Env{Scheduler: sched, Cdc: cdc, Ctx: ctx, MS: ms, Staking: st, Slashing: sl, Bank: bank, Accounts: accs, Valset: valset, Metrix: &metrix, Treasury: treasury, Consensus: cons, Evm: evm}
 }
 
 // AddChain registers and activates an EVM chain (the governance path).
